@@ -33,6 +33,62 @@ func runC16(p *load.Program, r *oblig.Report) {
 	c16Shareable(p, r)
 	c16Framing(p, r)
 	c16NoDecoderLimits(p, r)
+	c16SnappyEncoders(p, r)
+}
+
+// c16SnappyEncoders: whatever compression level is chosen, the blocks the snappy codec writes are in the Snappy block
+// format (readable by the reference decoder): the s2 package also offers encoders that emit its own incompatible
+// extension of the format (Encode, EncodeBetter, EncodeBest), which the codec's own reader happens to accept.
+func c16SnappyEncoders(p *load.Program, r *oblig.Report) {
+	const rule = "C16.R8 the snappy codec only uses encoders that emit the Snappy format"
+	n := 0
+	var bad []string
+	for _, fn := range pkgFuncs(p, "compress/snappy") {
+		an.EachInstr(fn, func(ins ssa.Instruction) {
+			st, ok := ins.(*ssa.Store)
+			if !ok {
+				return
+			}
+			fa, ok := st.Addr.(*ssa.FieldAddr)
+			if !ok || an.FieldName(fa.X.Type(), fa.Field) != "encode" {
+				return
+			}
+			var vals []ssa.Value
+			var walk func(v ssa.Value, seen map[ssa.Value]bool)
+			walk = func(v ssa.Value, seen map[ssa.Value]bool) {
+				if seen[v] {
+					return
+				}
+				seen[v] = true
+				if ph, isPhi := v.(*ssa.Phi); isPhi {
+					for _, e := range ph.Edges {
+						walk(e, seen)
+					}
+					return
+				}
+				vals = append(vals, v)
+			}
+			walk(st.Val, map[ssa.Value]bool{})
+			for _, v := range vals {
+				f, isFn := v.(*ssa.Function)
+				if !isFn {
+					continue // a value handed in by the caller (Reset keeps the field; constructors pass one of the below)
+				}
+				n++
+				pkgPath := ""
+				if f.Pkg != nil {
+					pkgPath = f.Pkg.Pkg.Path()
+				}
+				okFmt := strings.HasSuffix(pkgPath, "/snappy") || (strings.HasSuffix(pkgPath, "/s2") && strings.HasPrefix(f.Name(), "EncodeSnappy"))
+				if !okFmt {
+					bad = append(bad, an.ShortFunc(f)+" at "+p.Pos(st.Pos()))
+				}
+			}
+		})
+	}
+	sort.Strings(bad)
+	r.Check(len(bad) == 0, rule, "compress/snappy: every encoder installed in a writer is snappy.Encode or an s2.EncodeSnappy* function", "-", fmt.Sprintf("%d encoder values examined", n), strings.Join(bad, "; "))
+	r.RequireCount(rule, n, 3)
 }
 
 // c16NoDecoderLimits: a stream produced by a conforming encoder (the package's own or a reference one) declares
